@@ -67,7 +67,8 @@ def d1_purity(chk: Check, ef: Effects, cl: List[FuncInfo]) -> None:
             cls, detail = ef.classify(site)
             text = "{} on {}".format(site.how, src(site.receiver))
             if cls == "doc":
-                chk.fail("C09-D1", fi, site.node, text,
+                key = "{} on <document data: {}>".format(site.how, detail)
+                chk.fail("C09-D1", fi, site.node, key,
                          "`{}` mutates possibly-document data ({}) on the "
                          "read path: a query must leave the document "
                          "unchanged".format(site.text, detail))
@@ -288,8 +289,7 @@ def _descends(chk: Check, fi: FuncInfo, st: ast.stmt, cont: str,
                if isinstance(n, (ast.Assign, ast.AnnAssign)) and
                src(n.targets[0] if isinstance(n, ast.Assign) else n.target)
                == key]
-        from_seg = any("segments[depth]" in src(n.value) or
-                       "escaped[depth]" in src(n.value) for n in seg
+        from_seg = any(_is_segment_attr(fi, n.value) for n in seg
                        if n.value is not None)
         if from_seg:
             chk.ok("C09-D3c", fi, st, text,
@@ -299,6 +299,19 @@ def _descends(chk: Check, fi: FuncInfo, st: ast.stmt, cont: str,
     chk.fail("C09-D3c", fi, st, text,
              "the key created is not the current segment's attribute or the "
              "recursion does not descend into the created entry")
+
+
+def _is_segment_attr(fi: FuncInfo, value: ast.AST) -> bool:
+    """``<yaml_path>.escaped[<depth param>][1]`` after alias expansion."""
+    from sa.interproc import aliases, subst
+    v = subst(value, aliases(fi))
+    if isinstance(v, ast.Subscript) and src(v.slice) == "1" and \
+            isinstance(v.value, ast.Subscript) and \
+            isinstance(v.value.value, ast.Attribute) and \
+            v.value.value.attr == "escaped" and \
+            src(v.value.slice) in fi.params():
+        return True
+    return False
 
 
 def run(chk: Check) -> None:
@@ -323,7 +336,7 @@ def run(chk: Check) -> None:
                    if isinstance(n, (ast.Assign, ast.AnnAssign)) and
                    src(n.targets[0] if isinstance(n, ast.Assign)
                        else n.target) == arg]
-            if any(n.value is not None and "segments[depth]" in src(n.value)
+            if any(n.value is not None and _is_segment_attr(opt, n.value)
                    for n in seg):
                 chk.ok("C09-D3c", opt, call, "data.add({})".format(arg),
                        "member added is the current segment's attribute")
